@@ -327,6 +327,13 @@ def tree_to_term(tree, inloop=False):
 def leaves(term, guards=()):
     """Decision-tree leaves of a return term: [(guards, leaf)], guards = ((cond, polarity)...)."""
     if head(term) == "ite":
+        # a condition already decided on this path is not decided again the other way (x = a if c else b; y = d if c else e; x / y has two
+        # leaves, not four)
+        from .terms import strip_all as _sa
+        c = _sa(term[1])
+        for g, pol in guards:
+            if _sa(g) == c:
+                return leaves(term[2] if pol else term[3], guards)
         return leaves(term[2], guards + ((term[1], True),)) + leaves(term[3], guards + ((term[1], False),))
     return [(guards, term)]
 
